@@ -17,6 +17,7 @@ COORDS = [
     ('small positive', lambda i: (1.0 + 1.1 * i, 0.25 * i, 2.0)),
     ('negative and mixed', lambda i: (-1.5 * i - 0.3, 2.0 - i, -7.125)),
     ('large / tiny magnitudes', lambda i: (1000.0 + i, 1e-4 * (i + 1), -12345.678901)),
+    ('below 1e-8', lambda i: (3e-9 * (i + 1), -7.5e-12, 1e-30 * (i + 1))),
 ]
 FLAVOURS = ['plain', 'xml header + formalCharge attributes', 'empty bondArray element kept when no bonds']
 
@@ -80,6 +81,10 @@ def bond_sets(n):
             for c in itertools.combinations(pairs, r):
                 yield list(c)
         yield pairs
+    # one bond per bond ENTRY: documents that list the same atom pair more than once (same and opposite direction)
+    if n >= 2:
+        yield [pairs[0], pairs[0]]
+        yield [pairs[0], pairs[-1], pairs[0], pairs[0]]
 
 
 _tmp = {}
